@@ -353,5 +353,121 @@ every deme after its ancestors, which is weaker: `A`, `B` (from `A` at time 4), 
 is valid and not `StartsSorted`. -/
 def StartsSorted (g : Graph) : Bool :=
   pairwiseB (fun a b => decide (b.startTime ≤ a.startTime)) g.demes
+/-! ## Graph → ms → graph with exponential epochs (§8 of Theorems/C09.lean)
+
+`to_ms` prints an exponential epoch as `-eg t i α`, `α = -ln(start/end)/dt` (the symbolic `Growth` of the
+Model, rendered by the printer `sa`); the parser reads the decimal string back as a rational `α'`
+(`growthVal sa`), and `from_ms` rebuilds the older size of the epoch as `size · exp(-α'·Δt)`.  What does
+not depend on the *value* of a growth rate is exact; what does is the demography of the graph with every
+growth rate replaced by its printed value (`regrow`). -/
+
+section Growth
+open Demes.Spec.MsSem (Seg PopSem MigSeg Move DemogSem Pop mkSeg migSegs)
+open Demes.Spec.C07 (Upd PopSemG DemogSemG)
+
+/-- the rational the parsers read off the string printed for a growth rate (`0` when the string is not a
+finite number: excluded by `GrowthPrinter.parse`) -/
+def growthVal (sa : Growth → String) (G : Growth) : Q :=
+  match pyFloat (sa G) with
+  | some (.fin q) => q
+  | _ => 0
+
+/-- the growth rates `to_ms` computes for the epochs of `g` (`get_growth_rate`, `4·N0` units) -/
+def epochGrowths (g : Graph) (N0 : Q) : List Growth :=
+  (inGenerations g).demes.flatMap (fun d => d.epochs.map (C07.growthOf N0))
+
+/-- **the hypothesis on the printer of growth rates**, on the growth rates `Gs` of a graph: every printed
+string reads as a finite number (`float`) and is an argument for argparse (not taken for an option:
+`printed_numbers_are_not_flags`); the rate `0` of a constant epoch is printed as a string that reads as `0`;
+and the printed value depends only on the real number printed (`Growth.eq`: `-ln(r₁)/dt₁ = -ln(r₂)/dt₂`) —
+`to_ms` prints a rate only when it differs from the rate in force, so the rate in force in an epoch may have
+been printed from the `(r, dt)` of a more recent epoch with the same rate. -/
+structure GrowthPrinter (sa : Growth → String) (Gs : List Growth) : Prop where
+  parse : ∀ G ∈ Gs, ∃ q, pyFloat (sa G) = some (.fin q)
+  arg : ∀ G ∈ Gs, classify (sa G) = .ok .arg
+  zero : growthVal sa .zero = 0
+  congr : ∀ G ∈ Gs, ∀ G' ∈ Gs, G.eq G' = true → growthVal sa G = growthVal sa G'
+
+/-- `GrowthPrinter`, decided -/
+def growthPrinterB (sa : Growth → String) (Gs : List Growth) : Bool :=
+  Gs.all (fun G => match pyFloat (sa G) with | some (.fin _) => true | _ => false)
+  && Gs.all (fun G => match classify (sa G) with | .ok .arg => true | _ => false)
+  && decide (growthVal sa .zero = 0)
+  && Gs.all (fun G => Gs.all (fun G' => !(G.eq G') || decide (growthVal sa G = growthVal sa G')))
+
+/-- the population of the string interpreter that a list of size / growth updates builds, the growth rate
+`G` (ms units) read as the rational `gv G` -/
+def evalUpdsV (gv : Growth → Q) (N0 : Q) (lo : Q) (upd : List Upd) : Pop :=
+  upd.foldl (fun q u => q.change u.t (u.size.map Sz.ofQ) (u.growth.map (fun G => gv G / (4 * N0))))
+    { lo := lo, t0 := lo, size0 := Sz.ofQ 0 }
+
+/-- `embedPop` with growth rates: a population of `msSemG` (update list, symbolic growth rates) as a
+population of `msSem` (evaluated segments, rational growth rates) -/
+def embedPopV (gv : Growth → Q) (N0 : Q) (p : PopSemG) : PopSem :=
+  { id := p.id, lo := p.lo, hi := p.hi, segs := C08.finalSegs (closePop (evalUpdsV gv N0 p.lo p.upd) p.hi) }
+
+/-- `embedSem` with growth rates -/
+def embedSemV (gv : Growth → Q) (N0 : Q) (s : DemogSemG) : DemogSem :=
+  { pops := s.pops.map (embedPopV gv N0),
+    migs := migSegs s.snaps ((s.snaps.getLast?.map (·.2.length)).getD 0),
+    moves := s.moves }
+
+/-- the growth rate (per generation) that comes back for a segment of a graph: the printed value of the
+segment's own growth rate (`C07.segGrowth`: `0` for a constant epoch, `-ln(start/end)/dt` otherwise) -/
+def segRateV (gv : Growth → Q) (N0 : Q) (s : Seg) : Q :=
+  ((C07.segGrowth N0 s).map gv).getD 0 / (4 * N0)
+
+/-- the segments of a graph population (from the present backwards) with every growth rate replaced by the
+value that comes back.  `prev` is, for the segment before (more recent), its original size at its older end
+and the size it reaches there with the replaced rate: where the graph's size is continuous `to_ms` prints no
+`-en`, so the next segment starts from the size reached; where it jumps, `-en` sets the size exactly. -/
+def regrowSegs (gv : Growth → Q) (N0 : Q) : Option (Sz × Sz) → List Seg → List Seg
+  | _, [] => []
+  | prev, s :: ss =>
+    let size' : Sz := match prev with
+      | some (origOld, cur) => if origOld = s.size then cur else s.size
+      | none => s.size
+    let s' : Seg := { mkSeg s.t0 s.t1 size' (segRateV gv N0 s) with fn := s.fn }
+    s' :: regrowSegs gv N0 (match s.sizeOld, s'.sizeOld with | some o, some o' => some (o, o') | _, _ => none) ss
+
+def regrowPop (gv : Growth → Q) (N0 : Q) (p : PopSem) : PopSem :=
+  { p with segs := regrowSegs gv N0 none p.segs }
+
+/-- **the demography of a graph with every growth rate replaced by its printed value**: lifetimes,
+migrations and lineage movements unchanged; constant epochs stay constant, an exponential epoch grows at the
+rate `gv G / (4·N0)` per generation from the size at its recent end -/
+def regrow (gv : Growth → Q) (N0 : Q) (gs : DemogSem) : DemogSem :=
+  { gs with pops := gs.pops.map (regrowPop gv N0) }
+
+/-- the times of a graph population at which the size cannot depend on a printed growth rate: going
+backwards from the present (or from the last jump of the size, where `-en` sets it), all the epochs so far
+are constant — or the time is the recent end of the first exponential one.  `prev`: for the segment before,
+its original size at its older end, and whether the size there is still exact. -/
+def exactSegs : Option (Sz × Bool) → List Seg → Q → Bool
+  | _, [], _ => false
+  | prev, s :: ss, t =>
+    let ex : Bool := match prev with
+      | some (o, e) => o != s.size || e
+      | none => true
+    let const : Bool := s.sizeOld == some s.size
+    if C08.segOwns s t then ex && (const || t == s.t0)
+    else exactSegs (s.sizeOld.map (fun o => (o, ex && const))) ss t
+
+def exactAt (p : PopSem) (t : Q) : Bool := exactSegs none p.segs t
+
+/-- **`SemRefines` up to the values of the growth rates**: `SemRefines` with the size clause asked only at
+the times `exactAt` — every time of a constant epoch not preceded (towards the present, since the last jump
+of the size) by an exponential one, and the recent end of the first exponential epoch of such a run.  The
+populations, their order and lifetimes, the migration rates and the lineage movements are those of the
+graph, exactly. -/
+structure SemRefinesUpToGrowth (A gs : DemogSem) : Prop where
+  ids : A.pops.map (·.id) = gs.pops.map (·.id)
+  lives : ∀ ab ∈ A.pops.zip gs.pops, ab.1.hi = ab.2.hi ∧ ab.1.lo ≤ ab.2.lo
+  sizes : ∀ ab ∈ A.pops.zip gs.pops, ∀ t, ab.2.lo ≤ t → ETime.fin t < ab.2.hi → exactAt ab.2 t = true →
+    (sizeAt ab.2 t).isSome = true ∧ sizeAt ab.1 t = sizeAt ab.2 t
+  migs : migsRefine A gs = true
+  moves : C07.restrictMoves gs A.moves = some gs.moves
+
+end Growth
 
 end Demes.Spec.C09
